@@ -124,6 +124,62 @@ Section Corollaries.
       intros y [<-|[]]. reflexivity.
     - destruct (v_ge20 v); [|intros y []]. intros y [<-|[]]. reflexivity.
   Qed.
+  (* ---- the same at the level of the transport log: one inbound line in each task flavour ---- *)
+  Lemma queue_of_send g s k : queue_of (send g s) k = queue_of g k.
+  Proof. unfold queue_of, get_node. destruct (send_frame g s) as (S & _). rewrite S. reflexivity. Qed.
+
+  Lemma sends_send g s : (exists x, s = encode x) -> sends (g_log (send g s)) = sends (g_log g) ++ [s].
+  Proof. intros [x ->]. rewrite send_encode. simpl. rewrite sends_app. reflexivity. Qed.
+
+  Lemma last_emitted sl P ns s : ns ++ [s] = emitted_part sl P -> exists x, s = encode x.
+  Proof.
+    intro E. assert (H : In s (emitted_part sl P)) by (rewrite <- E; apply in_or_app; right; left; reflexivity).
+    apply in_emitted_part in H as (x & _ & ->). exists x. reflexivity.
+  Qed.
+
+  (* asyncio flavour: protocol.handle_line runs logic at once and sends the reply *)
+  Theorem recv_async_reply_table g l m : cfgv v g -> Inv orc g -> accepted orc g l m ->
+    wakes_up v (view_of clock g) m = false -> cf_async (g_cf g) = true ->
+    let P := prescribed v (view_of clock g) m in
+    let g' := recv orc clock g l in
+    sends (g_log g') = sends (g_log g) ++ emitted_part (vsleep g) P /\ g_jobs g' = g_jobs g /\
+    forall k, queue_of g' k = queue_of g k ++ withheld_part (vsleep g) k P.
+  Proof.
+    intros C I A WU AS P g'. subst g'. unfold recv. rewrite AS.
+    destruct (logic_total orc clock g l (cfgv_cfg v g C) I) as (g1 & r & L & _). rewrite L.
+    destruct (reply_table orc clock v g l m g1 r C I A WU L) as (ns & _ & O & E & Q). rewrite AS in O.
+    destruct O as [O1 O2]. cbn [vw_sleeping view_of] in E, Q. fold P in E, Q.
+    destruct r as [s|]; cbn [olist] in E.
+    - rewrite (sends_send g1 s (last_emitted _ _ _ _ E)), O1, <- app_assoc, E.
+      split; [reflexivity|]. split; [destruct (send_frame g1 s) as (_&_&_&J&_); congruence|].
+      intro k. rewrite queue_of_send. apply Q.
+    - rewrite app_nil_r in E. subst ns. split; [exact O1|]. split; [exact O2|exact Q].
+  Qed.
+
+  (* threaded flavour: the line waits in the job queue; one pump iteration runs logic on it and
+     sends the reply at once, while commands produced inside the call (ns) join the job queue *)
+  Theorem pump_reply_table g l rest m : cfgv v g -> Inv orc g -> cf_async (g_cf g) = false ->
+    g_jobs g = JLogic l :: rest ->
+    accepted orc (set_jobs g rest) l m -> wakes_up v (view_of clock (set_jobs g rest)) m = false ->
+    let P := prescribed v (view_of clock (set_jobs g rest)) m in
+    let g' := pump orc clock g in
+    exists ns r, ns ++ olist r = emitted_part (vsleep g) P /\
+      sends (g_log g') = sends (g_log g) ++ olist r /\ g_jobs g' = rest ++ map JSend ns /\
+      forall k, queue_of g' k = queue_of g k ++ withheld_part (vsleep g) k P.
+  Proof.
+    intros C I AS J A WU P g'. subst g'. unfold pump. rewrite J.
+    set (g0 := set_jobs g rest) in *.
+    assert (C0 : cfgv v g0) by exact C. assert (I0 : Inv orc g0) by (apply Inv_set_jobs; exact I).
+    destruct (logic_total orc clock g0 l (cfgv_cfg v g0 C0) I0) as (g1 & r & L & _). rewrite L.
+    destruct (reply_table orc clock v g0 l m g1 r C0 I0 A WU L) as (ns & _ & O & E & Q).
+    change (cf_async (g_cf g0)) with (cf_async (g_cf g)) in O. rewrite AS in O. destruct O as [O1 O2].
+    cbn [vw_sleeping view_of] in E, Q. fold P in E, Q. exists ns. exists r. split; [exact E|].
+    destruct r as [s|]; cbn [olist] in *.
+    - rewrite (sends_send g1 s (last_emitted _ _ _ _ E)), O1.
+      split; [reflexivity|]. split; [destruct (send_frame g1 s) as (_&_&_&JJ&_); rewrite JJ; exact O2|].
+      intro k. rewrite queue_of_send. apply Q.
+    - rewrite app_nil_r. split; [exact O1|]. split; [exact O2|exact Q].
+  Qed.
 End Corollaries.
 
 Lemma cfgv_iff v g : cfgv v g <-> (cf_tab (g_cf g) = tab_of v /\ cf_ge20 (g_cf g) = ge20 v).
@@ -203,6 +259,20 @@ Example ex_withheld :
   let g' := step no_oracles 0 g (Recv (s2p "1;0;2;0;2;")) in
   vsleep g 1 = true /\ new_sends g g' = [] /\ queue_of g' 1 = queue_of g 1 ++ [s2p "1;0;1;0;2;1" ++ [nl]].
 Proof. vm_compute. repeat split; reflexivity. Qed.
+
+(* corner: id 255 can be registered as a node (validation accepts a presentation from node 255);
+   once it sleeps, the broadcast discover request is withheld in "node 255's" queue *)
+Example ex_discover_withheld :
+  let g := run no_oracles 0 (gw_init cf22)
+             [Recv (s2p "255;255;0;0;3;x"); Recv (s2p "255;0;0;0;3;relay"); Recv (s2p "255;255;3;0;32;500")] in
+  let g' := step no_oracles 0 g (Recv (s2p "0;255;3;0;14;ready")) in
+  vsleep g 255 = true /\ new_sends g g' = [] /\ queue_of g' 255 = [s2p "255;255;3;0;20;" ++ [nl]].
+Proof. vm_compute. repeat split; reflexivity. Qed.
+
+(* corner: the id response copies the request's child id and drops its ack flag *)
+Example ex_id_response_copies_child :
+  sends (g_log (run no_oracles 0 (gw_init cf22) [Recv (s2p "255;-3;3;1;3;")])) = [s2p "255;-3;3;0;4;1" ++ [nl]].
+Proof. vm_compute. reflexivity. Qed.
 
 (* the hypotheses of reply_table are satisfiable by a non-trivial state *)
 Example ex_reply_table_premises :
